@@ -197,6 +197,10 @@ def hashable_rows(
     # if it is flat integers already return
     if len(as_int.shape) == 1:
         return as_int
+    # a single column is also just flat integers and can't
+    # be bit-packed as the offset `2**63` overflows `int64`
+    if len(as_int.shape) == 2 and as_int.shape[1] == 1:
+        return as_int.reshape(-1)
 
     # if array is 2D and smallish, we can try bitbanging
     # this is significantly faster than the custom dtype
